@@ -38,11 +38,25 @@ theorem RA.self {id : Nat} {c c' : Conn} (h1 : c.sameId c')
   ⟨h1, fun h => absurd rfl h, h2⟩
 
 theorem registerAck_lastPkid (o : Outgoing) (pkid : Nat) : (o.registerAck pkid).1.lastPkid = o.lastPkid := by
-  unfold Outgoing.registerAck; split <;> rfl
+  unfold Outgoing.registerAck; split
+  · rfl
+  · split <;> rfl
+
+theorem registerAck_dropN (o : Outgoing) (pkid : Nat) :
+    ∃ n, (o.registerAck pkid).1.inflight = o.inflight.drop n ∧ (o.registerAck pkid).1.lastPkid = o.lastPkid := by
+  unfold Outgoing.registerAck
+  split
+  · exact ⟨0, by simp, rfl⟩
+  · rename_i h a b rest heq
+    split
+    · exact ⟨1, by simp [heq], rfl⟩
+    · exact ⟨0, by simp, rfl⟩
 
 theorem registerPubcomp_out (o : Outgoing) (pkid : Nat) :
     (o.registerPubcomp pkid).1.inflight = o.inflight ∧ (o.registerPubcomp pkid).1.lastPkid = o.lastPkid := by
-  unfold Outgoing.registerPubcomp; split <;> exact ⟨rfl, rfl⟩
+  unfold Outgoing.registerPubcomp; split
+  · exact ⟨rfl, rfl⟩
+  · split <;> exact ⟨rfl, rfl⟩
 
 theorem Shape.rt_ro {id : Nat} {s s' : RState} (h : Shape RT s s') : Shape (RO id) s s' :=
   h.mono fun _ _ _ => RT.toRO
@@ -93,7 +107,7 @@ theorem handlePacket_shape {s s' : RState} {id : Nat} {cid : String} {pkt : Pack
     · simp at h
     · rename_i c hc
       have a : Shape (RA id) s (setConn s id { c with out := (c.out.registerAck pkid).1 }) :=
-        Shape.setConn hc (RA.self ⟨rfl, rfl, rfl, rfl⟩ (by first | exact ⟨0, by simp, rfl⟩ | exact ⟨1, (registerAck_spec _ _).1, registerAck_lastPkid _ _⟩ | exact ⟨0, by simp [registerPubcomp_out], (registerPubcomp_out _ _).2⟩))
+        Shape.setConn hc (RA.self ⟨rfl, rfl, rfl, rfl⟩ (by first | exact ⟨0, by simp, rfl⟩ | exact registerAck_dropN _ _ | exact ⟨0, by simp [registerPubcomp_out], (registerPubcomp_out _ _).2⟩))
       split at h
       · simp only [Except.ok.injEq, Prod.mk.injEq] at h; obtain ⟨rfl, _⟩ := h; exact a
       · split at h
@@ -109,13 +123,13 @@ theorem handlePacket_shape {s s' : RState} {id : Nat} {cid : String} {pkt : Pack
     · rename_i c hc
       split at h
       · simp only [Except.ok.injEq, Prod.mk.injEq] at h; obtain ⟨rfl, _⟩ := h
-        exact Shape.setConn hc (RA.self ⟨rfl, rfl, rfl, rfl⟩ (by first | exact ⟨0, by simp, rfl⟩ | exact ⟨1, (registerAck_spec _ _).1, registerAck_lastPkid _ _⟩ | exact ⟨0, by simp [registerPubcomp_out], (registerPubcomp_out _ _).2⟩))
+        exact Shape.setConn hc (RA.self ⟨rfl, rfl, rfl, rfl⟩ (by first | exact ⟨0, by simp, rfl⟩ | exact registerAck_dropN _ _ | exact ⟨0, by simp [registerPubcomp_out], (registerPubcomp_out _ _).2⟩))
       · split at h
         · simp at h
         · rename_i s2 h2
           simp only [Except.ok.injEq, Prod.mk.injEq] at h; obtain ⟨rfl, _⟩ := h
           refine Shape.trans ?_ (reschedule_shape h2).rt_ra
-          exact Shape.of_set hc rfl rfl rfl (RA.self ⟨rfl, rfl, rfl, rfl⟩ (by first | exact ⟨0, by simp, rfl⟩ | exact ⟨1, (registerAck_spec _ _).1, registerAck_lastPkid _ _⟩ | exact ⟨0, by simp [registerPubcomp_out], (registerPubcomp_out _ _).2⟩))
+          exact Shape.of_set hc rfl rfl rfl (RA.self ⟨rfl, rfl, rfl, rfl⟩ (by first | exact ⟨0, by simp, rfl⟩ | exact registerAck_dropN _ _ | exact ⟨0, by simp [registerPubcomp_out], (registerPubcomp_out _ _).2⟩))
   | pubrel pkid hasProps =>
     cases hasProps with
     | true => simp only [handlePacket, Except.ok.injEq, Prod.mk.injEq] at h; obtain ⟨rfl, _⟩ := h; exact Shape.refl _
@@ -126,11 +140,11 @@ theorem handlePacket_shape {s s' : RState} {id : Nat} {cid : String} {pkt : Pack
       · rename_i c hc
         split at h
         · simp only [Except.ok.injEq, Prod.mk.injEq] at h; obtain ⟨rfl, _⟩ := h
-          exact Shape.of_set hc rfl rfl rfl (RA.self ⟨rfl, rfl, rfl, rfl⟩ (by first | exact ⟨0, by simp, rfl⟩ | exact ⟨1, (registerAck_spec _ _).1, registerAck_lastPkid _ _⟩ | exact ⟨0, by simp [registerPubcomp_out], (registerPubcomp_out _ _).2⟩))
+          exact Shape.of_set hc rfl rfl rfl (RA.self ⟨rfl, rfl, rfl, rfl⟩ (by first | exact ⟨0, by simp, rfl⟩ | exact registerAck_dropN _ _ | exact ⟨0, by simp [registerPubcomp_out], (registerPubcomp_out _ _).2⟩))
         · rename_i p rest hrec
           have a : Shape (RA id) s ((setConn s id { c with acks := { committed := c.acks.committed ++ [Ack.pubcomp pkid], recorded := rest } }).g
               (.committed id (.pubcomp pkid))) :=
-            Shape.of_set hc rfl rfl rfl (RA.self ⟨rfl, rfl, rfl, rfl⟩ (by first | exact ⟨0, by simp, rfl⟩ | exact ⟨1, (registerAck_spec _ _).1, registerAck_lastPkid _ _⟩ | exact ⟨0, by simp [registerPubcomp_out], (registerPubcomp_out _ _).2⟩))
+            Shape.of_set hc rfl rfl rfl (RA.self ⟨rfl, rfl, rfl, rfl⟩ (by first | exact ⟨0, by simp, rfl⟩ | exact registerAck_dropN _ _ | exact ⟨0, by simp [registerPubcomp_out], (registerPubcomp_out _ _).2⟩))
           split at h
           · simp at h
           · rename_i h2
@@ -148,7 +162,7 @@ theorem handlePacket_shape {s s' : RState} {id : Nat} {cid : String} {pkt : Pack
     · simp at h
     · rename_i c hc
       have a : Shape (RA id) s (setConn s id { c with out := (c.out.registerPubcomp pkid).1 }) :=
-        Shape.setConn hc (RA.self ⟨rfl, rfl, rfl, rfl⟩ (by first | exact ⟨0, by simp, rfl⟩ | exact ⟨1, (registerAck_spec _ _).1, registerAck_lastPkid _ _⟩ | exact ⟨0, by simp [registerPubcomp_out], (registerPubcomp_out _ _).2⟩))
+        Shape.setConn hc (RA.self ⟨rfl, rfl, rfl, rfl⟩ (by first | exact ⟨0, by simp, rfl⟩ | exact registerAck_dropN _ _ | exact ⟨0, by simp [registerPubcomp_out], (registerPubcomp_out _ _).2⟩))
       split at h
       all_goals
         simp only [Except.ok.injEq, Prod.mk.injEq] at h; obtain ⟨rfl, _⟩ := h; exact a
